@@ -15,6 +15,16 @@ class ReplayDivergence(HarnessError):
     """Replaying a recorded prefix met other decision points than recorded."""
 
 
+# Divergences that could not be blamed on a violating execution of the same
+# tree.  Every execution builds fresh clients, agents and loops, so they mean
+# that behaviour depends on what ran earlier in this process: state the code
+# under test keeps outside its objects, or a leak of the harness.  They are not
+# raised on the spot (a later configuration of the same run may well show the
+# violation such state causes); the runner collects them per shard and ends the
+# run as a harness error only if the whole run found no violation at all.
+DEFERRED = []
+
+
 class RootOutOfRange(Exception):
     """The root prefix of a shard names an alternative that this
     implementation does not offer (the sub-tree does not exist here; the
@@ -133,7 +143,7 @@ def explore(run, bound=None, max_executions=None, double_every=50, on_exec=None,
             if on_exec is not None:
                 on_exec(ctx, obs, violations)
             if not violations:
-                raise HarnessError(
+                DEFERRED.append(
                     "replay divergence: execution ended after %d of %d recorded "
                     "choices" % (len(ctx.choices), len(prefix))
                 )
@@ -176,9 +186,9 @@ def explore(run, bound=None, max_executions=None, double_every=50, on_exec=None,
                         on_exec(ctx, obs, probe)
                         v1 = probe
                     if not v1:
-                        raise HarnessError(
+                        DEFERRED.append(
                             "nondeterminism: choices %r gave %r then %r"
-                            % (ctx.choices, obs, obs2)
+                            % (ctx.choices, repr(obs)[:300], repr(obs2)[:300])
                         )
                 for v in violations2:
                     v = dict(v)
@@ -211,7 +221,7 @@ def explore(run, bound=None, max_executions=None, double_every=50, on_exec=None,
         # depth-first, lowest alternative of the shallowest point first
         stack.extend(reversed(pending))
     if diverged and not found:
-        raise HarnessError("%d replays diverged and no execution violated the oracle; first: %s" % (len(diverged), diverged[0]))
+        DEFERRED.append("%d replays diverged and no execution of the tree violated the oracle; first: %s" % (len(diverged), diverged[0]))
     stats.replay_divergences = len(diverged)
     return stats, found
 
